@@ -165,4 +165,144 @@ theorem erase_trailingTextPop {cs out : List Node} {count : Nat}
                   obtain ⟨v, r0, cs0⟩ := last
                   cases v <;> simp_all [erase, Node.isText, Node.content]
 
+/-! ## the text of a code span is never empty -/
+
+theorem codeByteLen_ne_nil {l : List Char} (h : 0 < CodePair.byteLen l) : l ≠ [] := by
+  intro e; subst e; simp [CodePair.byteLen] at h
+
+theorem findB_zero {m : Char} {s : List Char} (h : CodePair.findB m s = some 0) : s.head? = some m := by
+  cases s with
+  | nil => simp [CodePair.findB] at h
+  | cons c r =>
+    unfold CodePair.findB at h
+    split at h
+    · next hc => simp [hc]
+    · cases hf : CodePair.findB m r with
+      | none => simp [hf] at h
+      | some k =>
+        simp only [hf, Option.map_some, Option.some.injEq] at h
+        have := Char.utf8Size_pos c
+        omega
+
+theorem mkNode_content_ne {src : List Char} {sp p ms me n : Nat} {nd : CodePair.Node}
+    (h : CodePair.mkNode src sp p ms me n = .ok nd) (hlt : p < ms) : nd.content ≠ [] := by
+  have hf : ∀ a b c d e (ct : List Char), CodePair.finishNode a b c d e ct = .ok nd → nd.content = ct := by
+    intro a b c d e ct hf
+    unfold CodePair.finishNode at hf
+    split at hf
+    · split at hf
+      · simp only [Except.ok.injEq] at hf; subst hf; rfl
+      · simp at hf
+    · simp at hf
+  unfold CodePair.mkNode at h
+  split at h
+  · simp at h
+  · next raw hraw =>
+    obtain ⟨x, z, _, hx, hu⟩ := CodePair.slice_some hraw
+    have hlen : 0 < CodePair.byteLen (CodePair.normalise raw) := by
+      rw [CodePair.byteLen_normalise]; omega
+    simp only at h
+    split at h
+    · next hpad =>
+      split at h
+      · simp at h
+      · next inner hin =>
+        split at h
+        · simp at h
+        · rw [hf _ _ _ _ _ _ h]
+          obtain ⟨x', z', _, hx', hu'⟩ := CodePair.slice_some hin
+          unfold CodePair.padded at hpad
+          simp only [Bool.and_eq_true, decide_eq_true_eq] at hpad
+          exact codeByteLen_ne_nil (by omega)
+    · rw [hf _ _ _ _ _ _ h]; exact codeByteLen_ne_nil hlen
+
+theorem scan_content_ne (v : CodePair.Variant) (m : Char) (src : List Char)
+    (pos posMax n p : Nat) (silent : Bool) (matchEnd : Nat) (c : CodePair.Cache) (o : CodePair.Outcome)
+    (c' : CodePair.Cache) (nd : CodePair.Node)
+    (H : p < matchEnd ∨ (matchEnd = p ∧ ∀ s, CodePair.slice src p posMax = some s → s.head? ≠ some m))
+    (h : CodePair.scan v m src pos posMax n p silent matchEnd c = .ok (some o, c'))
+    (hn : o.node = some nd) : nd.content ≠ [] := by
+  fun_induction CodePair.scan v m src pos posMax n p silent matchEnd c
+  case case1 => simp at h
+  case case2 => simp at h
+  case case3 => simp at h
+  case case4 => simp at h
+  case case5 =>
+    simp only [Except.ok.injEq, Prod.mk.injEq, Option.some.injEq] at h
+    obtain ⟨rfl, _⟩ := h; simp at hn
+  case case6 => simp_all
+  case case7 matchEnd c s hs off hf s' hs' heq hnu hsil nd' hmk =>
+    simp only [Except.ok.injEq, Prod.mk.injEq, Option.some.injEq] at h
+    obtain ⟨rfl, _⟩ := h
+    simp only [Option.some.injEq] at hn; subst hn
+    apply mkNode_content_ne hmk
+    rcases H with H | ⟨rfl, H⟩
+    · omega
+    · have := H s hs
+      have : off ≠ 0 := by
+        intro e; subst e; exact this (findB_zero hf)
+      omega
+  case case8 => simp_all
+  case case9 matchEnd c s hs off hf s' hs' hne mx hrec ih =>
+    apply ih _ h
+    left
+    rcases H with H | ⟨rfl, _⟩ <;> omega
+
+theorem runLen_tail (m : Char) (l : List Char) :
+    ∃ t, l = List.replicate (CodePair.runLen m l) m ++ t ∧ t.head? ≠ some m := by
+  induction l with
+  | nil => exact ⟨[], rfl, by simp⟩
+  | cons c r ih =>
+    unfold CodePair.runLen
+    split
+    · next hc =>
+      obtain ⟨t, ht, hh⟩ := ih
+      refine ⟨t, ?_, hh⟩
+      rw [List.replicate_succ, List.cons_append, ← ht, hc]
+    · next hc => exact ⟨c :: r, rfl, by simpa using hc⟩
+
+theorem run_content_ne (v : CodePair.Variant) (m : Char) (hm1 : m.utf8Size = 1) (src : List Char)
+    (pos posMax : Nat) (prev silent : Bool) (c : CodePair.Cache) (o : CodePair.Outcome)
+    (c' : CodePair.Cache) (nd : CodePair.Node)
+    (h : CodePair.run v m src pos posMax prev silent c = .ok (some o, c')) (hn : o.node = some nd) :
+    nd.content ≠ [] := by
+  unfold CodePair.run at h
+  split at h
+  · simp at h
+  · simp at h
+  · next ch rest hw =>
+    -- the text behind the opener run does not start with the marker
+    have hH : ch = m → ∀ s, CodePair.slice src (pos + 1 + CodePair.runLen m rest) posMax = some s →
+        s.head? ≠ some m := by
+      intro hch s hs
+      subst hch
+      obtain ⟨x, z, hsrc, hx, hu⟩ := CodePair.slice_some hw
+      obtain ⟨t, ht, hh⟩ := runLen_tail ch rest
+      have hrep := CodePair.byteLen_replicate hm1 (CodePair.runLen ch rest)
+      have hsrc2 : src = (x ++ ch :: List.replicate (CodePair.runLen ch rest) ch) ++ t ++ z := by
+        rw [hsrc]; conv => lhs; rw [ht]
+        simp
+      have hbl : CodePair.byteLen (x ++ ch :: List.replicate (CodePair.runLen ch rest) ch)
+          = pos + 1 + CodePair.runLen ch rest := by
+        rw [CodePair.byteLen_append]; simp only [CodePair.byteLen, hm1, hrep]; omega
+      have hpm : posMax = pos + 1 + CodePair.runLen ch rest + CodePair.byteLen t := by
+        have : CodePair.byteLen (ch :: rest) = 1 + CodePair.runLen ch rest + CodePair.byteLen t := by
+          conv => lhs; rw [ht]
+          simp only [CodePair.byteLen, CodePair.byteLen_append, hm1, hrep]
+          omega
+        omega
+      have := CodePair.slice_mid (x ++ ch :: List.replicate (CodePair.runLen ch rest) ch) t z
+      rw [hbl, ← hpm, ← hsrc2] at this
+      rw [this] at hs
+      simp only [Option.some.injEq] at hs; subst hs; exact hh
+    split at h
+    · simp at h
+    · next hc =>
+      have hcm : ch = m := by simpa using hc
+      have H := hH hcm
+      repeat' split at h
+      all_goals first
+        | simp at h
+        | exact scan_content_ne _ _ _ _ _ _ _ _ _ _ _ _ _ (Or.inr ⟨rfl, H⟩) h hn
+
 end MdIt.Inline
